@@ -274,6 +274,8 @@ impl Check for C13 {
         let duration = prop_oneof![
             3 => proptest::sample::select(vec![1_000_000u64, 10_000_000, 1_000_000_000, 60_000_000_000, 100_000_000_000]),
             2 => 1_000_000u64..100_000_000_000,
+            // below a millisecond (any duration > 0 is legal)
+            1 => proptest::sample::select(vec![1u64, 1_000, 250_000, 800_000, 999_999]),
         ];
         (limit, duration, 1usize..=6)
             .prop_flat_map(move |(limit, duration_ns, nkeys)| {
@@ -292,7 +294,7 @@ impl Check for C13 {
         (v, info)
     }
     fn rule(&self) -> String {
-        "histories of up to 120 (quick) / 400 (thorough) operations over 1-6 keys: Attempt(key) and Advance(dt) with dt from {0, 1 ns, k·d-2..k·d+2 ns for k in 1..5, fractions of d, random}; limit 1-200, duration 1 ms - 100 s; run inside a paused tokio runtime. non-trivial = at least one rejection, at least one window roll-over and at least two keys; distinct = distinct case".into()
+        "histories of up to 120 (quick) / 400 (thorough) operations over 1-6 keys: Attempt(key) and Advance(dt) with dt from {0, 1 ns, k·d-2..k·d+2 ns for k in 1..5, fractions of d, random}; limit 1-200, duration 1 ns - 100 s (mostly 1 ms - 100 s); run inside a paused tokio runtime. non-trivial = at least one rejection, at least one window roll-over and at least two keys; distinct = distinct case".into()
     }
     fn assumptions(&self) -> Vec<String> {
         vec![
